@@ -105,6 +105,13 @@ PFUN = {
 OPFUN = {0: lambda a, b: a + b, 1: max, 2: min}
 OPFUN[1] = lambda a, b: max(a, b)
 OPFUN[2] = lambda a, b: min(a, b)
+# neither associative nor commutative: bracketing and order of the RDD operation matter
+OPFUN[3] = lambda a, b: a - b
+OPFUN[4] = lambda a, b: (a + b) // 2
+OPFUN[5] = lambda a, b: a
+OPFUN[6] = lambda a, b: b
+OPFUN[7] = lambda a, b: 2 * a - b
+NONASSOC = (3, 4, 5, 6, 7)
 TFUN = {
     0: lambda rdd: rdd,
     1: lambda t, rdd: rdd,
@@ -161,6 +168,60 @@ def canon_contents(xs):
     return sorted((canon_elem(x) for x in xs), key=_key)
 
 
+def exact_contents(xs):
+    """Collect order, untouched (lists of the elements themselves)."""
+    return [_plain(x) for x in xs]
+
+
+def _plain(v):
+    if isinstance(v, tuple):
+        return tuple(_plain(x) for x in v)
+    if isinstance(v, list):
+        return [_plain(x) for x in v]
+    return v
+
+
+def ordered_flags(prog):
+    """ordered[k]: the order of the stream returned by call k is determined by the RDD operations: neither the
+    call nor one of its ancestors is a cogroup / fullOuterJoin (whose key order is that of a Python set)."""
+    out = []
+    for c in prog:
+        if c[0] in (QUEUE, FILE):
+            out.append(True)
+            continue
+        args = [c[1]] + ([c[2]] if c[0] in (UNION, COGROUPED, TRANSFORMWITH) else [])
+        setorder = c[0] == COGROUPED and c[3] in (0, 4)
+        out.append(not setorder and all(a < len(out) and out[a] for a in args))
+    return out
+
+
+# kinds of iterables a batch / the default / the queue can be handed over as (presentation only: the elements
+# are the same); RDDs are described by their number of partitions
+K_LIST, K_TUPLE, K_GEN, K_ITER, K_MAP, K_ZIP, K_DEQUE, K_RANGE = range(8)
+KIND_NAMES = ['list', 'tuple', 'generator', 'iterator', 'map object', 'zip', 'deque', 'range']
+
+
+def present(elems, kind):
+    elems = list(elems)
+    if kind == K_TUPLE:
+        return tuple(elems)
+    if kind == K_GEN:
+        return (x for x in elems)
+    if kind == K_ITER:
+        return iter(elems)
+    if kind == K_MAP:
+        return map(lambda x: x, elems)
+    if kind == K_ZIP and elems and all(isinstance(x, tuple) and len(x) == 2 for x in elems):
+        return zip([x[0] for x in elems], [x[1] for x in elems])
+    if kind == K_DEQUE:
+        import collections
+        return collections.deque(elems)
+    if kind == K_RANGE and elems and all(isinstance(x, int) for x in elems) and \
+            elems == list(range(elems[0], elems[0] + len(elems))):
+        return range(elems[0], elems[0] + len(elems))
+    return elems
+
+
 # ---------------------------------------------------------------- implementation side
 class _Run:
     def __init__(self, case):
@@ -170,6 +231,7 @@ class _Run:
         self.dirs = {}
         self.instrumented = 0
         self.final = False
+        self.exact = set()
 
     def index_of(self, ssc, d):
         for i, x in enumerate(ssc._dstreams):
@@ -184,9 +246,20 @@ class _Run:
             op = call[0]
             s = handles[call[1]] if op not in (QUEUE, FILE) else None
             if op == QUEUE:
-                _, batches, one, default = call
-                r = ssc.queueStream([None if b is None else list(b) for b in batches], oneAtATime=one,
-                                    default=None if default is None else list(default))
+                _, batches, one, default = call[:4]
+                eparts, dpart, (ckind, ekinds, dkind, mut) = call[4] if len(call) > 4 else \
+                    ([0] * len(batches), 0, (K_LIST, [K_LIST] * len(batches), K_LIST, 0))
+                entries = []
+                for b, k, kd in zip(batches, eparts, ekinds):
+                    entries.append(None if b is None else sc.parallelize(list(b), k) if k else present(b, kd))
+                dobj = None if default is None else sc.parallelize(list(default), dpart) if dpart else present(default, dkind)
+                container = present(entries, ckind) if ckind in (K_LIST, K_TUPLE, K_GEN, K_ITER, K_DEQUE) else entries
+                r = ssc.queueStream(container, oneAtATime=one, default=dobj)
+                # the caller goes on using its own object after queueStream() returned
+                if mut == 1 and isinstance(dobj, list):
+                    dobj.append(dobj[0] if dobj else 0)
+                elif mut == 2 and isinstance(dobj, list):
+                    dobj.clear()
             elif op == FILE:
                 _, done0, pre = call
                 d = os.path.join(base, f'src{h}')
@@ -245,7 +318,8 @@ class _Run:
 
     def _sink(self, cell, stop_ssc=None):
         def action(t, rdd):
-            self.events.append((2, cell[0], int(t), None if rdd is None else canon_contents(rdd.collect())))
+            self.events.append((2, cell[0], int(t), None if rdd is None else
+                                (exact_contents if cell[0] in self.exact else canon_contents)(rdd.collect())))
             if stop_ssc is not None and self.final:
                 stop_ssc.stop()      # "stop once enough data has been seen", from inside the output action
         return action
@@ -308,6 +382,8 @@ class _Run:
                         self.build(sc, ssc, base, self.prog[pos:pos + entry[0]], handles)
                         pos += entry[0]
                         self.instrument(ssc)
+                        flags = ordered_flags(self.prog[:pos])
+                        self.exact = {self.index_of(ssc, handles[k]) for k in range(pos) if flags[k]}
                         if not started:
                             ssc.start()
                             started = True
@@ -328,10 +404,10 @@ class _Run:
                         for x in entry[2]:
                             ssc._dstreams[x % n]._step(float(t))
                     states = []
-                    for d in ssc._dstreams:
+                    for i, d in enumerate(ssc._dstreams):
                         r = d._current_rdd
                         o = None if r is None else (isinstance(r, EmptyRDD), r.getNumPartitions(),
-                                                    canon_contents(r.collect()))
+                                                    (exact_contents if i in self.exact else canon_contents)(r.collect()))
                         ct = d._current_time
                         states.append((int(ct) if ct == int(ct) else ct, o))
                     layouts = []
@@ -368,6 +444,12 @@ def impl(case):
 
 
 # ---------------------------------------------------------------- oracle (implementation only)
+def _top_eq(a, b):
+    """Same elements (as a multiset at the top level), every element compared exactly: the value order inside
+    groupByKey lists and the bracketing of non-associative reductions are visible."""
+    return sorted((_plain(x) for x in a), key=_key) == sorted((_plain(x) for x in b), key=_key)
+
+
 def _multiset_eq(a, b):
     return canon_contents(a) == canon_contents(b)
 
@@ -457,6 +539,7 @@ def oracle(case, result):
     if isinstance(result, Err):
         return (f'run:{result.name}', 'building or stepping the streams raised')
     struct, hn, ticks = result
+    ordered = ordered_flags(prog)
     qpos = {h: 0 for h, c in enumerate(prog) if c[0] == QUEUE}
     seen = {h: set(c[1]) for h, c in enumerate(prog) if c[0] == FILE}
     last_t = 0
@@ -514,7 +597,7 @@ def oracle(case, result):
         for h, call in enumerate(prog[:reg]):
             op = call[0]
             if op == QUEUE:
-                _, batches, one, default = call
+                _, batches, one, default = call[:4]
                 p = qpos[h]
                 if p >= len(batches):
                     want = list(default) if default is not None else []
@@ -527,7 +610,7 @@ def oracle(case, result):
                     qpos[h] = len(batches)
                 nodata = (p >= len(batches) and default is None) or (p < len(batches) and one and batches[p] is None)
                 inst[h] = zp[h] = nodata
-                if obs[h] is None or not _multiset_eq(obs[h], want):
+                if obs[h] is None or not _top_eq(obs[h], want):
                     return ('queue:delivery', f'{where}: queue stream (call {h}) delivered {obs[h]!r}, expected {want!r}')
                 continue
             if op == FILE:
@@ -568,7 +651,7 @@ def oracle(case, result):
                     return ('fire:action-count', f'{where}: foreachRDD action (call {h}) ran {len(got)} times')
                 if got[0][2] != t:
                     return ('fire:action-time', f'{where}: foreachRDD action (call {h}) got time {got[0][2]}')
-                if got[0][3] is None or not _multiset_eq(got[0][3], ins[0]):
+                if got[0][3] is None or not (_top_eq if ordered[h] else _multiset_eq)(got[0][3], ins[0]):
                     return ('fire:action-input', f'{where}: foreachRDD action (call {h}) received {got[0][3]!r}, '
                             f'its stream holds {ins[0]!r}')
                 continue
@@ -586,7 +669,9 @@ def oracle(case, result):
                 if layouts.get(h) != exp:
                     return ('op:repartition-layout', f'{where}: call {h} repartition({n_}) of {ins[0]!r} has partition sizes '
                             f'{layouts.get(h)!r}, RDD.repartition gives {exp!r}')
-            if not _multiset_eq(obs[h], want):
+            # an ordered stream (and hence its inputs) is observed in collect order: the reference is computed from the
+            # inputs in that order and compared element by element (top-level multiset); otherwise deep multisets
+            if not (_top_eq if ordered[h] else _multiset_eq)(obs[h], want):
                 name = CGOPS[call[3]] if op == COGROUPED else OPNAMES[op]
                 return (f'op:{name}', f'{where}: call {h} {name} on {ins!r} gave {obs[h]!r}, the RDD operation gives {want!r}')
     return None
@@ -640,6 +725,7 @@ def _unary_choices(ty):
         for f in (0, 1, 2):
             out.append(((FLATMAPVALUES, f), KI))
             out.append(((REDUCEBYKEY, f), KI))
+        out.append(((GROUPBYKEY,), KL))
     if ty == KL:
         out += [((MAPVALUES, 20), KI), ((MAPVALUES, 21), KI), ((FLATMAPVALUES, 4), KI), ((FILTER, 4), KL)]
     if ty == KT:
@@ -673,6 +759,39 @@ def _queue_batches(rng, ty, one):
     return bs
 
 
+def _big_batch(rng, ty):
+    """A batch for an RDD with several partitions: a key's values span partitions."""
+    n = rng.randint(3, 7)
+    if ty == I:
+        return [rng.randint(-3, 9) for _ in range(n)]
+    return [(rng.randint(0, 1), rng.randint(-3, 9)) for _ in range(n)]
+
+
+def _queue_meta(rng, ty, bs, one, default):
+    """How the batches, the default and the queue are handed over (same elements): kinds of iterables, RDDs
+    with 1..3 partitions, a default list the caller mutates afterwards."""
+    eparts, ekinds = [], []
+    for j, b in enumerate(bs):
+        if b is not None and one and rng.random() < 0.3:
+            eparts.append(rng.randint(1, 3))          # an RDD (only iterable entries work with oneAtATime=False)
+            if rng.random() < 0.7:
+                bs[j] = _big_batch(rng, ty)
+        else:
+            eparts.append(0)
+        ekinds.append(rng.choice([K_LIST, K_LIST, K_TUPLE, K_GEN, K_ITER, K_MAP, K_ZIP, K_DEQUE]))
+    dpart, dkind, mut = 0, K_LIST, 0
+    if default is not None:
+        r = rng.random()
+        if r < 0.2:
+            dpart = rng.randint(1, 3)
+        elif r < 0.45:
+            mut = rng.choice([1, 2])                  # a list that is appended to / cleared after queueStream()
+        else:
+            dkind = rng.choice([K_LIST, K_TUPLE, K_GEN, K_ITER, K_MAP, K_ZIP, K_DEQUE])
+    ckind = rng.choice([K_LIST, K_LIST, K_DEQUE, K_GEN, K_TUPLE])
+    return (eparts, dpart, (ckind, ekinds, dkind, mut))
+
+
 def _add_source(rng, prog, types, depth, with_files, first):
     if with_files and (first or rng.random() < 0.3):
         prog.append('FILE')
@@ -680,8 +799,12 @@ def _add_source(rng, prog, types, depth, with_files, first):
     else:
         ty = rng.choice([I, I, KI])
         one = rng.random() < 0.75
-        default = None if rng.random() < 0.55 else ([] if rng.random() < 0.25 else _batch(rng, ty))
-        prog.append((QUEUE, _queue_batches(rng, ty, one), one, default))
+        default = None if rng.random() < 0.5 else ([] if rng.random() < 0.2 else _batch(rng, ty))
+        bs = _queue_batches(rng, ty, one)
+        if rng.random() < 0.5:
+            prog.append((QUEUE, bs, one, default, _queue_meta(rng, ty, bs, one, default)))
+        else:
+            prog.append((QUEUE, bs, one, default))
         types.append(ty)
     depth.append(0)
 
@@ -741,6 +864,9 @@ def _add_calls(rng, prog, types, depth, ncalls, with_none=False):
             depth.append(max(depth[s], depth[o]) + 1)
         else:
             spec, rty = rng.choice(_unary_choices(ty))
+            if spec[0] in (REDUCEBYKEY, REDUCE) and rng.random() < 0.5 and \
+                    ordered_flags([c if c != 'FILE' else (FILE,) for c in prog])[s]:
+                spec = (spec[0], rng.choice(NONASSOC))   # order/bracketing sensitive: only where the order is determined
             prog.append(_mk(spec, s))
             types.append(rty)
             depth.append(depth[s] + 1)
@@ -896,6 +1022,52 @@ def systematic():
     return cases
 
 
+def systematic_kinds():
+    """(a) every kind of default batch / queue entry / queue container, >= 3 exhausted intervals, oneAtATime both
+    ways; (b) keyed and reducing operations with non-associative functions on RDD batches with 2-3 partitions
+    in which a key's values span partitions."""
+    cases = []
+    acts = lambda n: [(FOREACH, j) for j in range(n)]
+    for one in (True, False):
+        for ty, b0, b1, d in ((I, [1, 2, 2], [4, 0], [7, 8, 9]),
+                              (KI, [(0, 1), (1, 2), (0, 3)], [(2, 4)], [(0, 4), (1, 2), (0, 2)])):
+            body = [(COUNT, 0), (REDUCEBYKEY, 0, 3) if ty == KI else (REDUCE, 0, 3), (MAP, 0, 0)]
+            variants = [(0, k, 0) for k in range(8)] + [(p_, K_LIST, 0) for p_ in (1, 2, 3)] + [(0, K_LIST, 1), (0, K_LIST, 2)]
+            for dpart, dkind, mut in variants:
+                src = (QUEUE, [list(b0)], one, list(d), ([0], dpart, (K_LIST, [K_LIST], dkind, mut)))
+                cases.append(([src] + body + acts(4), [(t, []) for t in (1, 2, 3, 4)]))
+            for ek in range(8):
+                src = (QUEUE, [list(d), list(b1)], one, None, ([0, 0], 0, (K_LIST, [ek, ek], K_LIST, 0)))
+                cases.append(([src] + body + acts(4), [(t, []) for t in (1, 2, 3)]))
+            if one:
+                for k in (1, 2, 3):
+                    src = (QUEUE, [list(d), list(b1)], one, list(b0), ([k, k], 0, (K_LIST, [K_LIST, K_LIST], K_LIST, 0)))
+                    cases.append(([src] + body + acts(4), [(t, []) for t in (1, 2, 3, 4, 5)]))
+            for ck in (K_LIST, K_TUPLE, K_GEN, K_ITER, K_DEQUE):
+                src = (QUEUE, [list(b0), list(b1)], one, list(d), ([0, 0], 0, (ck, [K_LIST, K_TUPLE], K_GEN, 0)))
+                cases.append(([src] + body + acts(4), [(t, []) for t in (1, 2, 3, 4, 5)]))
+    big_ki = [[(0, 1), (1, 2), (0, 5), (0, 3), (1, 7), (0, 2)], [(1, 4), (0, 6), (1, 1), (1, 3)]]
+    big_i = [[5, 1, 4, 0, 3, 2, 8], [0, 4, 2, 2]]
+    hist = [(t, []) for t in (1, 2, 3)]
+    for k in (2, 3):
+        meta = ([k, k], 0, (K_LIST, [K_LIST, K_LIST], K_LIST, 0))
+        ski = (QUEUE, [list(b) for b in big_ki], True, None, meta)
+        si = (QUEUE, [list(b) for b in big_i], True, None, meta)
+        for f in range(8):
+            cases.append(([ski, (REDUCEBYKEY, 0, f), (FOREACH, 1)], hist))
+            cases.append(([ski, (MAP, 0, 0), (REDUCEBYKEY, 1, f), (FOREACH, 2)], hist))
+            cases.append(([ski, (MAPVALUES, 0, 1), (UNION, 0, 1), (REDUCEBYKEY, 2, f), (FOREACH, 3)], hist))
+            cases.append(([si, (REDUCE, 0, f), (FOREACH, 1)], hist))
+            cases.append(([si, (FILTER, 0, 3), (REDUCE, 1, f), (FOREACH, 2)], hist))
+        cases.append(([ski, (GROUPBYKEY, 0), (FOREACH, 1)], hist))
+        cases.append(([ski, (FILTER, 0, 5), (GROUPBYKEY, 1), (MAPVALUES, 2, 21), (FOREACH, 2), (FOREACH, 3)], hist))
+        cases.append(([si, (COUNTBYVALUE, 0), (FOREACH, 1)], hist))
+        for op in (1, 2, 3):
+            cases.append(([ski, (MAPVALUES, 0, 1), (COGROUPED, 0, 1, op, None), (FOREACH, 2)], hist))
+            cases.append(([ski, (MAPVALUES, 0, 1), (COGROUPED, 0, 1, op, 2), (GROUPBYKEY, 2), (FOREACH, 3)], hist))
+    return cases
+
+
 def gen_late_case(rng):
     """Graph construction interleaved with ticks: part of the DAG, start(), 0..3 ticks, then further
     sources / branches (also joined with existing ones) / output actions, more ticks, possibly a third phase."""
@@ -944,6 +1116,7 @@ def gen_order_case(rng):
 def generate(rng, tier):
     cases = list(_corpus())
     cases += systematic()
+    cases += systematic_kinds()
     n_rand, n_file = (600, 100) if tier == 'quick' else (8000, 1200)
     for _ in range(150 if tier == 'quick' else 1500):
         cases.append(gen_order_case(rng))
@@ -1030,11 +1203,24 @@ def shrink_candidates(case):
         h2 = [(t, [((h - 1 if h > i else h), ls) for h, ls in env if h != i]) for t, env in hist]
         if new:
             yield (new, h2)
-    # smaller batches
+    # smaller batches (the presentation info, if any, is kept in step)
     for i, c in enumerate(prog):
         if c[0] == QUEUE:
-            _, bs, one, d = c
+            _, bs, one, d = c[:4]
+            meta = c[4] if len(c) > 4 else None
+
+            def q(bs2, drop=None):
+                if meta is None:
+                    return (QUEUE, bs2, one, d)
+                ep, dp, (ck, ek, dk, mut) = meta
+                if drop is not None:
+                    ep, ek = ep[:drop] + ep[drop + 1:], ek[:drop] + ek[drop + 1:]
+                return (QUEUE, bs2, one, d, (ep, dp, (ck, ek, dk, mut)))
             for j in range(len(bs)):
-                yield (prog[:i] + [(QUEUE, bs[:j] + bs[j + 1:], one, d)] + prog[i + 1:], hist)
+                yield (prog[:i] + [q(bs[:j] + bs[j + 1:], j)] + prog[i + 1:], hist)
                 if bs[j]:
-                    yield (prog[:i] + [(QUEUE, bs[:j] + [bs[j][1:]] + bs[j + 1:], one, d)] + prog[i + 1:], hist)
+                    yield (prog[:i] + [q(bs[:j] + [bs[j][1:]] + bs[j + 1:])] + prog[i + 1:], hist)
+            if meta is not None:
+                # plain lists everywhere
+                plain = (QUEUE, bs, one, d)
+                yield (prog[:i] + [plain] + prog[i + 1:], hist)
